@@ -1,9 +1,9 @@
 CONSTANTS
  Producers = {"p1","p2"}
  K = 2
- Shapes <- ShOk12
- MaxFaults = 2
- MaxCrashes = 1
+ Shapes <- ShOk1
+ MaxFaults = 0
+ MaxCrashes = 2
  MaxIdxLoss = 0
  SyncFlush = TRUE
  InlineAt = 0
@@ -23,10 +23,10 @@ CONSTANTS
  DevOrphanAlwaysSkipped = FALSE
  DevNoFlushOnAck = FALSE
  DevTolerateLostIdx = FALSE
- DevRestoreCountsOrphan = FALSE
+ DevRestoreCountsOrphan = TRUE
  DevReadFloorSegment = FALSE
 INIT Init
 NEXT Next
 VIEW View
 CHECK_DEADLOCK FALSE
-INVARIANTS C01_AckedDurable C02_Unique C02_Monotone C02_NoGap C02_BaseIsStored C05_Monotone C05_NotAhead C06_NoHide C06_NoReuse
+INVARIANTS C06_NoHide
